@@ -157,6 +157,12 @@ Example Main_example_REG : is_ok (build p_REG) = true /\ no_conflict p_REG = tru
 Proof. exact REG_no_conflict. Qed.
 Print Assumptions Main_example_REG.
 
+(** the hypotheses of [Main_defined_once] hold on the three witness programs *)
+Example Main_defined_once_hypotheses :
+  forallb (fun p => countries_wf p && match build p with Ok E => names_wf E | Err _ => false end) [p_SIM; p_PC; p_REG] = true.
+Proof. vm_compute. reflexivity. Qed.
+Print Assumptions Main_defined_once_hypotheses.
+
 (* ------------------------------------------------------------------ *)
 (** * [no_conflict] is needed *)
 
